@@ -1,12 +1,179 @@
-(** C18 — attributes() / minimal().  STATUS: [_partial].  Proved: for an empty extent the
-    enumeration is exactly the full intent.  The shortlex powerset filter is decided by the
-    correspondence in this revision. *)
-From Coq Require Import ZArith List Bool.
-From Concepts Require Import Base.Res Base.PyInt Base.BitSet Spec.FCA Spec.Context
+(** C18 — attributes() / minimal().
+
+    "For any concept with a non-empty extent, attributes() yields exactly those subsets of its
+    intent whose common objects are the concept's extent, each once, ordered by size and then by
+    property position, and minimal() is the first of them; every yielded set regenerates the
+    concept via lattice(...).  For a concept with empty extent attributes() yields just its full
+    intent, and the infimum's minimal() is its full intent."
+
+    END-TO-END: [L] is the value returned by the model of [Context.lattice] ([build_lattice],
+    satisfiable by [C03_terminates]); [concept_at L i x] says [x] is its i-th member.
+    [attributes d L i] lists the yielded sets as lists of property positions ([indexes t] of the
+    bitset [t]); [generators c x] is that enumeration as bitsets:
+    the subsets [t] of the intent in the order of [powerset_shortlex] (all subsets, by size then
+    by position: [C18_powerset_In], [C18_powerset_sorted], [C18_shortlex_meaning]) that satisfy
+    [upM c t = c_extent x] (t' = extent). *)
+From Coq Require Import ZArith List Bool Sorted.
+From Concepts Require Import Base.Res Base.PyInt Base.BitSet Spec.FCA Spec.Context Spec.LatticeSpec
   Model.Matrices Model.ContextApi Model.Members Model.Lattice Model.LatticeApi
-  Proofs.Matrices Proofs.ContextApi Proofs.Closure Proofs.LatticeBasics Proofs.LatticeFirst.
+  Proofs.Matrices Proofs.ContextApi Proofs.Closure Proofs.LatticeBasics Proofs.LatticeFirst
+  Proofs.Keys Proofs.SortBy Proofs.Powerset Proofs.BuildLattice Proofs.LatticeLabels Proofs.Assemble.
 Import ListNotations.
 Open Scope Z_scope.
 
+(** * attributes() of a concept with non-empty extent *)
+
+Theorem C18_attributes : forall fuel dfuel c L i x,
+  wf_ctx c -> (Nat.max (nG c) (nM c) <= dfuel)%nat -> build_lattice fuel dfuel (relation_new c) = Ok L ->
+  concept_at L i x -> c_extent x <> 0 ->
+  attributes dfuel L i =
+  Ok (map indexes (filter (fun t => upM c t =? c_extent x) (powerset_shortlex (c_intent x)))).
+Proof.
+  intros fuel dfuel c L i x Hwf Hd HB.
+  exact (attributes_spec c L (build_lattice_ok fuel dfuel c L Hwf Hd HB) dfuel Hd i x).
+Qed.
+
+(** * attributes() of a concept with empty extent: just its full intent *)
+
+Theorem C18_attributes_empty_extent : forall L dfuel i x, concept_at L i x -> c_extent x = 0 ->
+  attributes dfuel L i = Ok [indexes (c_intent x)].
+Proof. exact attributes_empty_extent. Qed.
+
+(** * both cases: attributes() lists [generators c x]; what that list contains, in what order *)
+
+Theorem C18_attributes_generators : forall fuel dfuel c L i x,
+  wf_ctx c -> (Nat.max (nG c) (nM c) <= dfuel)%nat -> build_lattice fuel dfuel (relation_new c) = Ok L ->
+  concept_at L i x -> attributes dfuel L i = Ok (map indexes (generators c x)).
+Proof.
+  intros fuel dfuel c L i x Hwf Hd HB.
+  exact (attributes_generators c L (build_lattice_ok fuel dfuel c L Hwf Hd HB) dfuel Hd i x).
+Qed.
+
+(** every yielded set is a set of properties, a subset of the intent, with t' = extent *)
+Theorem C18_generators_sound : forall fuel dfuel c L i x t,
+  wf_ctx c -> (Nat.max (nG c) (nM c) <= dfuel)%nat -> build_lattice fuel dfuel (relation_new c) = Ok L ->
+  concept_at L i x -> In t (generators c x) ->
+  in_range (nM c) t /\ subset t (c_intent x) /\ upM c t = c_extent x.
+Proof.
+  intros fuel dfuel c L i x t Hwf Hd HB.
+  exact (generators_sound c L (build_lattice_ok fuel dfuel c L Hwf Hd HB) i x t).
+Qed.
+
+(** for a non-empty extent, exactly those *)
+Theorem C18_generators_complete : forall fuel dfuel c L i x t,
+  wf_ctx c -> (Nat.max (nG c) (nM c) <= dfuel)%nat -> build_lattice fuel dfuel (relation_new c) = Ok L ->
+  concept_at L i x -> c_extent x <> 0 ->
+  (In t (generators c x) <-> 0 <= t /\ subset t (c_intent x) /\ upM c t = c_extent x).
+Proof.
+  intros fuel dfuel c L i x t Hwf Hd HB.
+  exact (generators_complete c L (build_lattice_ok fuel dfuel c L Hwf Hd HB) i x t).
+Qed.
+
+(** each once, ordered by the shortlex key over the properties: by size, then by position *)
+Theorem C18_generators_sorted : forall fuel dfuel c L i x,
+  wf_ctx c -> (Nat.max (nG c) (nM c) <= dfuel)%nat -> build_lattice fuel dfuel (relation_new c) = Ok L ->
+  concept_at L i x ->
+  StronglySorted (klt (shortlex (nM c))) (generators c x) /\ NoDup (generators c x).
+Proof.
+  intros fuel dfuel c L i x Hwf Hd HB.
+  exact (generators_sorted c L (build_lattice_ok fuel dfuel c L Hwf Hd HB) i x).
+Qed.
+
+Theorem C18_shortlex_meaning : forall r a b, in_range r a -> in_range r b ->
+  (klt (shortlex r) a b <->
+   (count a < count b)%nat \/ (count a = count b /\ lexlt a b)).
+Proof. exact shortlex_meaning. Qed.
+
+(** the full intent is always among them, last *)
+Theorem C18_attributes_last_is_intent : forall fuel dfuel c L i x,
+  wf_ctx c -> (Nat.max (nG c) (nM c) <= dfuel)%nat -> build_lattice fuel dfuel (relation_new c) = Ok L ->
+  concept_at L i x ->
+  exists l, attributes dfuel L i = Ok l /\ In (indexes (c_intent x)) l /\ l <> [] /\
+            last l [] = indexes (c_intent x).
+Proof.
+  intros fuel dfuel c L i x Hwf Hd HB.
+  exact (attributes_nonempty_last c L (build_lattice_ok fuel dfuel c L Hwf Hd HB) dfuel Hd i x).
+Qed.
+
+(** in terms of the yielded lists of property names: valid, inside the intent, generating the
+    extent; no list yielded twice *)
+Theorem C18_attributes_valid : forall fuel dfuel c L i x l ms,
+  wf_ctx c -> (Nat.max (nG c) (nM c) <= dfuel)%nat -> build_lattice fuel dfuel (relation_new c) = Ok L ->
+  concept_at L i x -> attributes dfuel L i = Ok l -> In ms l ->
+  Forall (fun p => (p < nM c)%nat) ms /\ (forall p, In p ms -> mem (c_intent x) p = true) /\
+  upM c (of_list ms) = c_extent x.
+Proof.
+  intros fuel dfuel c L i x l ms Hwf Hd HB.
+  exact (attributes_valid c L (build_lattice_ok fuel dfuel c L Hwf Hd HB) dfuel Hd i x l ms).
+Qed.
+
+Theorem C18_attributes_NoDup : forall fuel dfuel c L i x l,
+  wf_ctx c -> (Nat.max (nG c) (nM c) <= dfuel)%nat -> build_lattice fuel dfuel (relation_new c) = Ok L ->
+  concept_at L i x -> attributes dfuel L i = Ok l -> NoDup l.
+Proof.
+  intros fuel dfuel c L i x l Hwf Hd HB.
+  exact (attributes_NoDup c L (build_lattice_ok fuel dfuel c L Hwf Hd HB) dfuel i x l Hd).
+Qed.
+
+(** * every yielded set regenerates the concept via lattice(...) *)
+
+Theorem C18_attributes_regenerate : forall fuel dfuel c L i x l ms,
+  wf_ctx c -> (Nat.max (nG c) (nM c) <= dfuel)%nat -> build_lattice fuel dfuel (relation_new c) = Ok L ->
+  concept_at L i x -> attributes dfuel L i = Ok l -> In ms l -> lattice_call dfuel L ms = Ok i.
+Proof.
+  intros fuel dfuel c L i x l ms Hwf Hd HB.
+  exact (attributes_regenerate c L (build_lattice_ok fuel dfuel c L Hwf Hd HB) dfuel Hd i x l ms).
+Qed.
+
+(** * minimal(): the first yielded set (a smallest one); the infimum's is its full intent *)
+
+Theorem C18_minimal_is_head : forall fuel dfuel c L i x,
+  wf_ctx c -> (Nat.max (nG c) (nM c) <= dfuel)%nat -> build_lattice fuel dfuel (relation_new c) = Ok L ->
+  concept_at L i x -> i <> 0%nat ->
+  exists h t, attributes dfuel L i = Ok (h :: t) /\ minimal dfuel L i = Ok h /\
+              forall ms, In ms (h :: t) -> (length h <= length ms)%nat.
+Proof.
+  intros fuel dfuel c L i x Hwf Hd HB.
+  exact (minimal_is_head c L (build_lattice_ok fuel dfuel c L Hwf Hd HB) dfuel Hd i x).
+Qed.
+
+Theorem C18_minimal_infimum : forall L dfuel x0, concept_at L 0 x0 ->
+  minimal dfuel L 0 = Ok (indexes (c_intent x0)).
+Proof. exact minimal_infimum. Qed.
+
+(** * the enumeration the filter runs over: all subsets, by size then position, each once *)
+
+Theorem C18_powerset_In : forall r s, in_range r s ->
+  forall t, In t (powerset_shortlex s) <-> 0 <= t /\ subset t s.
+Proof. exact powerset_shortlex_In. Qed.
+
+Theorem C18_powerset_sorted : forall r s, in_range r s ->
+  StronglySorted (klt (shortlex r)) (powerset_shortlex s).
+Proof. exact powerset_shortlex_sorted. Qed.
+
+Theorem C18_powerset_NoDup : forall r s, in_range r s -> NoDup (powerset_shortlex s).
+Proof. exact powerset_shortlex_NoDup. Qed.
+
+(** * Context._minimize itself *)
+
+Theorem C18_minimize : forall dfuel c extent intent,
+  extent <> 0 -> in_range (nM c) intent -> (nM c <= dfuel)%nat ->
+  minimize dfuel (relation_new c) extent intent =
+  Ok (filter (fun t => upM c t =? extent) (powerset_shortlex intent)).
+Proof. exact minimize_spec. Qed.
+
 Theorem C18_empty_extent : forall d k intent, minimize d k 0 intent = Ok [intent].
 Proof. exact minimize_empty_extent. Qed.
+
+(** * witness: rows {0,1}, {1,2}, {2,3}, {0,1,2}.  Member 1 = ({2}, {2,3}) is generated by {3}
+      and by {2,3}; member 3 = ({0,3}, {0,1}) by {0} and {0,1}; the infimum has empty extent. *)
+Example C18_witness :
+  let c := mkCtx 4 4 [3; 6; 12; 7] in
+  wf_ctx c /\ (Nat.max (nG c) (nM c) <= 4)%nat /\
+  exists L, build_lattice 20 4 (relation_new c) = Ok L /\
+    (attributes 4 L 1, attributes 4 L 3, minimal 4 L 3, attributes 4 L 0, minimal 4 L 0)
+    = (Ok [[3]; [2; 3]], Ok [[0]; [0; 1]], Ok [0], Ok [[0; 1; 2; 3]], Ok [0; 1; 2; 3])%nat.
+Proof.
+  cbv zeta. split; [apply wf_ctxb_sound; vm_compute; reflexivity|]. split; [apply le_by_leb; vm_compute; reflexivity|].
+  apply witness_intro. vm_compute. reflexivity.
+Qed.
